@@ -200,8 +200,13 @@ func main() {
 	}
 	c.flush()
 	closeChildren()
-	for id, what := range c.known {
-		rep.Known = append(rep.Known, report.Known{ID: id, What: what})
+	var ids []string
+	for id := range c.known {
+		ids = append(ids, id)
+	}
+	sortStrings(ids)
+	for _, id := range ids {
+		rep.Known = append(rep.Known, report.Known{ID: id, What: c.known[id]})
 	}
 	for id := range c.stale {
 		if _, ok := c.known[id]; !ok {
